@@ -123,6 +123,23 @@ CLAIMED = {
              'oracle compares canonical vs re-laid-out text on the implementation directly.',
         ref='DESIGN.md §6 C18', technique='Coq proofs (case-insensitivity) + layout correspondence + relayout oracle',
         note='The line-splitting regular expressions are exercised, not modelled.'),
+    'C19': dict(
+        text='Partial. Theorems: the validator accepts a definition iff it is well-formed (sections, keyword clashes, macro/instruction '
+             'clash ignoring letter case, declared operand sets and registers, operand counts vs both kinds of operand list, '
+             'non-inverted ranges, zones inside the address space and GLOBAL, version gate); the gate is exactly the interval '
+             '[minimum supported, running] of a version order proved reflexive, antisymmetric, transitive and numeric per '
+             'component; #require holds iff the name matches and the stated comparison holds. The definition is abstracted to '
+             'the facts validation reads; tied by compiling with generated well-formed definitions, every fault of a 22-entry '
+             'catalogue, and version triples whose numeric and textual orders differ (in process and through the command line).',
+        ref='DESIGN.md §6 C19', technique='Coq proofs (validate <-> well_formed, version order) + accept/reject correspondence on generated definitions',
+        note='YAML text -> abstract definition and version text -> number list are harness code (trusted).'),
+    'C20': dict(
+        text='Partial. Theorem: the alternation pattern the generator substitutes, searched in an identifier, matches iff the '
+             'identifier is in the vocabulary (any vocabulary of word-character names, any identifier). Well-formedness of the '
+             'generated JSON/plist/YAML/zip files, absence of template placeholders and classification by the emitted patterns '
+             '(run with Python re) are checked on generated vocabularies with prefixes, regex metacharacters and mixed-case keys.',
+        ref='DESIGN.md §6 C20', technique='Coq proof (pattern classifies exactly the vocabulary) + generator correspondence on generated vocabularies',
+        note='Editor regex engines (Oniguruma) are stood in for by Python re.'),
 }
 
 ALL = [f'C{i:02d}' for i in range(1, 21)]
